@@ -42,6 +42,9 @@ def main():
 
         for v in ("plain", "sched", "asan", "tsan"):
             print(build(v, quiet=False))
+        import subprocess
+
+        subprocess.call([sys.executable, os.path.join(VERIF, "mc", "warm.py")])
         return 0
     from mc.runner import main as run
 
